@@ -20,6 +20,7 @@ MutantsAt(s, p) == {Ins(s, p, k) : k \in Alpha}
 \* a function may not classify an argument by its first operand and lose the rest
 ArgKinds == { <<"LiteralToken">>, <<"CellIdentifierToken">>, <<"MatrixOfCellIdentifiersToken">>,
               <<"CellIdentifierToken", "PlusOperatorToken", "LiteralToken">>, <<"LiteralToken", "PercentToken">>,
+              <<"LiteralToken", "AmpersandToken", "LiteralToken">>,       \* a text assembled from two literals (also as a criterion)
               <<"SumKeywordToken", "BracketStartToken", "LiteralToken", "SeparatorToken", "LiteralToken", "BracketFinishToken">> }
 \* n arguments: pattern "uni" = all of kind a; "mfirst" = a matrix first, then kind a; "msecond" = kind a, a matrix, then kind a
 ArgList(n, a, pat) ==
